@@ -20,6 +20,7 @@ import (
 	"fmt"
 	"io"
 	"math/rand/v2"
+	"reflect"
 	"runtime"
 	"sort"
 	"strings"
@@ -43,6 +44,7 @@ type input struct {
 	Cut   int     `json:"cut,omitempty"`
 	Ops   []mutOp `json:"ops,omitempty"`
 	Data  string  `json:"data,omitempty"` // raw: hex
+	Tier  string  `json:"tier,omitempty"` // value generator tier (thorough adds the very large values)
 }
 
 // codec describes one encode/decode pair of the implementation.
@@ -60,6 +62,9 @@ type codec struct {
 	// rawHint produces a plausible frame start for the raw mode (may be nil).
 	rawHint func(r *rand.Rand) []byte
 }
+
+// tier of the run ("quick" leaves out the few-hundred-kilobyte values)
+var genTier = "quick"
 
 var codecs []*codec
 var codecByName = map[string]*codec{}
@@ -174,8 +179,9 @@ func pickCodec(r *rand.Rand) *codec {
 }
 
 func gen(r *rand.Rand, tier string, i int) input {
+	genTier = tier
 	c := pickCodec(r)
-	in := input{Codec: c.name, Seed: r.Uint64() | 1}
+	in := input{Codec: c.name, Seed: r.Uint64() | 1, Tier: tier}
 	switch x := r.IntN(100); {
 	case x < 34:
 		in.Mode = "value"
@@ -251,6 +257,7 @@ func run(in input) vh.Result {
 		allocTr uint64
 	)
 	if in.Mode != "raw" {
+		genTier = in.Tier
 		v, vclass = c.gen(rand.New(rand.NewPCG(in.Seed, 27)))
 		enc, encOK = c.enc(v)
 	}
@@ -324,8 +331,10 @@ func run(in input) vh.Result {
 	if mode == 0 && vclass != "" {
 		class += "/" + vclass
 	}
-	coq := vh.App("C27Case", vh.N(uint64(mode)), vh.Hex(data), vh.B(encOK),
-		c.payload(v, hasV, data, res, resOK), vh.NList(truncOK), vh.N(alloc), vh.N(allocTr))
+	// a decoded value identical to the generated one is not printed a second time
+	same := mode == 0 && encOK && resOK && reflect.DeepEqual(v, res)
+	coq := vh.App("C27Case", vh.N(uint64(mode)), bigHex(data), vh.B(encOK),
+		c.payload(v, hasV, data, res, resOK && !same), vh.B(same), vh.NList(truncOK), vh.N(alloc), vh.N(allocTr))
 	return vh.Result{
 		Coq: coq,
 		Obs: map[string]any{"mode": mode, "len": len(data), "enc_ok": encOK, "dec_ok": resOK,
@@ -359,6 +368,23 @@ func main() {
 }
 
 // ---- shared printers -----------------------------------------------------------------
+
+// bigHex renders long byte strings as (hxc "..." (hxc "..." [])): one string literal of
+// several hundred kilobytes is a term too deep for coqc's stack.
+func bigHex(b []byte) string {
+	const chunk = 1024
+	if len(b) <= chunk {
+		return vh.Hex(b)
+	}
+	var sb strings.Builder
+	n := 0
+	for i := 0; i < len(b); i += chunk {
+		sb.WriteString(`(hxc "` + hex.EncodeToString(b[i:min(len(b), i+chunk)]) + `" `)
+		n++
+	}
+	sb.WriteString("[]" + strings.Repeat(")", n))
+	return sb.String()
+}
 
 func optList(isNil bool, items []string) string {
 	if isNil {
